@@ -216,3 +216,21 @@ Lemma link_sk_report_delivery :
   C16_Gen.sk_m_log = ["writeReport"; "logEnabled.True"; "logx.Statf"]%string /\
   C16_Gen.sk_m_SetReportWriter = ["writeLock.Lock"; "writeLock.Unlock"]%string.
 Proof. repeat split; reflexivity. Qed.
+
+(* LessExecutor.DoOrDiscard: one clock reading, load lastTime, (set lastTime, execute, true) or false: less_step *)
+Lemma link_sk_less : C16_Gen.sk_less_DoOrDiscard =
+  ["timex.Now"; "le.lastTime.Load"; "le.lastTime.Set"; "execute"; "return"; "return"]%string.
+Proof. reflexivity. Qed.
+
+(* the executable LessExecutor spec used on the driver's streams accepts what the model does, for clocks that stay
+   positive and never go back (so the checker is not stricter than the transcribed code) *)
+Lemma less_model_step_spec thr last now ran last' : 0 < last -> last <= now ->
+  less_step thr last now = (ran, last') ->
+  (if now - last <? thr then negb ran else if thr <? now - last then ran else true) = true /\
+  last' = (if ran then now else last).
+Proof.
+  intros H1 H2. unfold less_step. destruct (last =? 0) eqn:E; [lia|]. simpl.
+  destruct (last + thr <? now) eqn:E2; intro H; injection H as Hr Hl; subst ran last'; split; try reflexivity.
+  - destruct (now - last <? thr) eqn:E3; [lia|]. destruct (thr <? now - last) eqn:E4; reflexivity.
+  - destruct (now - last <? thr) eqn:E3; [reflexivity|]. destruct (thr <? now - last) eqn:E4; [lia|reflexivity].
+Qed.
